@@ -20,6 +20,7 @@
 //	mpread <len> <limit> <bufsize> <k>     ioutil2.MultiPassReader: k Reads
 //	grpcjson <continue_on_error> <file>    grpc/json provider on arbitrary bytes
 //	cfg <yaml>                             scenario config.DecodeMap (third-party YAML + mapstructure): fuzzed only
+//	cfghdrs / wfile / cfile / sfile        see cfgin.go (config `headers` lists, scenario files in every format)
 //
 // Every call runs under recover and a bounded wait; outcome classes panic / hang / oom.
 package main
@@ -149,9 +150,14 @@ func addRLE(rs []rle, name string, sleep int64) []rle {
 
 // runScenario builds the real scenario provider and returns the first acquired ammo.
 func runScenario(kind string, yaml []byte) (core.Ammo, string) {
+	return runScenarioFile(kind, "s.yaml", yaml)
+}
+
+// runScenarioFile: the same on a description file of the given name (the extension selects the parser).
+func runScenarioFile(kind, fname string, content []byte) (core.Ammo, string) {
 	fs := afero.NewMemMapFs()
-	_ = afero.WriteFile(fs, "s.yaml", yaml, 0o644)
-	conf := scenario.ProviderConfig{File: "s.yaml"}
+	_ = afero.WriteFile(fs, fname, content, 0o644)
+	conf := scenario.ProviderConfig{File: fname}
 	var p core.Provider
 	var err error
 	if kind == "http" {
@@ -181,6 +187,13 @@ func convCase(kind string, shoots []string) string {
 		if st != "" {
 			return st
 		}
+		return requestListOf(a)
+	})
+}
+
+// requestListOf prints the request list of an acquired scenario, run-length encoded.
+func requestListOf(a core.Ammo) string {
+	{
 		var rs []rle
 		switch s := a.(type) {
 		case *httpscen.Scenario:
@@ -195,7 +208,7 @@ func convCase(kind string, shoots []string) string {
 			return fmt.Sprintf("unknown-ammo-%T", a)
 		}
 		return "ok " + printRLE(rs)
-	})
+	}
 }
 
 func weightsCase(ws []int64) string {
@@ -458,6 +471,22 @@ func runCase(c string) string {
 		return convCase(f[1], shoots)
 	case "weights":
 		return weightsCase(ints(f[1:]))
+	case "cfghdrs":
+		var es []string
+		for _, h := range f[2:] {
+			es = append(es, string(vh.UnHex(h)))
+		}
+		return cfghdrsCase(f[1], es)
+	case "wfile":
+		return wfileCase(f[1], f[2], f[3:])
+	case "cfile":
+		var shoots []string
+		for _, h := range f[3:] {
+			shoots = append(shoots, string(vh.UnHex(h)))
+		}
+		return cfileCase(f[1], f[2], shoots)
+	case "sfile":
+		return sfileCase(f[1], f[2], vh.UnHex(f[3]))
 	case "index":
 		l, _ := strconv.Atoi(f[2])
 		p, _ := strconv.Atoi(f[3])
